@@ -239,6 +239,11 @@ func readRollupFile(fd *os.File,
 			}
 			offset += int64(mrSize)
 
+			err = utils.CheckSerializedBitsetFits(bsBlk[:mrSize])
+			if err != nil {
+				return fmt.Errorf("qid=%d, readRollupFile: failed to unmarshall bitset, err: %+v", qid, err)
+			}
+
 			bs := bitset.New(0)
 			err = bs.UnmarshalBinary(bsBlk[:mrSize])
 			if err != nil {
